@@ -69,6 +69,14 @@ NATIVE = {'Encrypt': 'SymmetricKey', 'Decrypt': 'SymmetricKey',
           'MAC': 'SymmetricKey'}
 
 
+EC_PRIV = ('308187020100301306072a8648ce3d020106082a8648ce3d030107046d306b02'
+           '01010420cbc9c9567b852c9c314d1fedc03def64de9f71d34f8e9ce5b9cb19de'
+           'bab103d7a14403420004f5c0398e92eb7df9ec6a1916408552138ca88c29ef63'
+           '473e6f22bf88c1fb0022def9d7270b13d433ca42d68dc40794207a659898fa82'
+           'b5137b6d6700cd3f7a00')
+EC_PUB = ('3059301306072a8648ce3d020106082a8648ce3d03010703420004f5c0398e92eb'
+          '7df9ec6a1916408552138ca88c29ef63473e6f22bf88c1fb0022def9d7270b13d4'
+          '33ca42d68dc40794207a659898fa82b5137b6d6700cd3f7a00')
 IDENTIFIER_FORMS = [
     str(2 ** 63 - 1), str(2 ** 63), str(2 ** 64), str(-2 ** 63),
     str(-2 ** 63 - 1), str(2 ** 128), '-1', '0', '00', '1e3', '0x10',
@@ -577,6 +585,44 @@ def generate(rng, tier, index):
                 {'op': 'Register', 'label': 'spl', 'otype': 'SplitKey',
                  'attrs': [A('Cryptographic Usage Mask', 12)],
                  'obj': gen.gen_object(ctx, 'SplitKey')}]
+            # key bytes are free-form: a symmetric key object may hold the
+            # DER of an RSA or EC key, a private key object an EC key, and
+            # the request's parameters may say RSA
+            rpub, rpriv = gen.rsa_values(0)
+            for lab, val in (('s_rpub', rpub), ('s_rpriv', rpriv),
+                             ('s_ecpub', EC_PUB), ('s_ecpriv', EC_PRIV)):
+                extra_setup.append({
+                    'op': 'Register', 'label': lab, 'otype': 'SymmetricKey',
+                    'attrs': [A('Cryptographic Usage Mask', 12)],
+                    'obj': {'kft': 1, 'value': val, 'alg': 3,
+                            'len': 8 * (len(val) // 2)}})
+                extra_setup.append({'op': 'Activate', 'uid': '@' + lab})
+            extra_setup.append({
+                'op': 'Register', 'label': 'p_ec', 'otype': 'PrivateKey',
+                'attrs': [A('Cryptographic Usage Mask', 1)],
+                'obj': {'kft': 4, 'value': EC_PRIV, 'alg': 6, 'len': 256}})
+            extra_setup.append({'op': 'Activate', 'uid': '@p_ec'})
+            for lab in ('s_rpub', 's_rpriv', 's_ecpub', 's_ecpriv', 'x'):
+                for name in ('Encrypt', 'Decrypt'):
+                    for n in (0, 10, 128, 1000):
+                        for pad in (8, 1, None):
+                            cp = {'alg': 4, 'hash': 6}
+                            if pad:
+                                cp['padding'] = pad
+                            probes_.append({'op': name, 'uid': '@' + lab,
+                                            'data': '2a' * n, 'cp': cp})
+            for cp in ({'alg': 4, 'hash': 6, 'padding': 8},
+                       {'alg': 4, 'hash': 6, 'padding': 10},
+                       {'dsa': 5, 'padding': 10}, {'dsa': 5, 'padding': 8},
+                       {'alg': 6, 'hash': 6}, {'dsa': 0xF}):
+                probes_.append({'op': 'Sign', 'uid': '@p_ec',
+                                'data': '0a0b', 'cp': cp})
+            # attributes the policy table calls applicable to certificates
+            for a_ in (A('Cryptographic Algorithm', 4),
+                       A('Cryptographic Length', 2048)):
+                probes_.append({'op': 'Register', 'otype': 'Certificate',
+                                'attrs': [a_],
+                                'obj': gen.gen_object(ctx, 'Certificate')})
             for d in (0, 1, -1, 2 ** 31, 2 ** 62, 2 ** 63 - 1, -2 ** 63):
                 for code in (1, 2, 3, 7):
                     probes_.append({'op': 'Revoke', 'uid': '@x',
